@@ -58,8 +58,9 @@ def base_toml_override():
         "src/f.py": _f("#", [part("TO", [C_F], ["MIT"], toml=t, tpath="src/f.py"), part("H", ["2000 Stale"], ["ISC"])]),
         "src/g.c": _f("c", [part("TO", [C_G], ["0BSD"], toml=t, tpath="src/g.c")]),
         "h.txt": _f(None, [part("TO", [C_H], ["MIT"], toml=t, tpath="h.txt")], body="text\n"),
-        "bin/k.png": _f(None, [part("TO", [C_K], ["0BSD"], toml=t, tpath="bin/k.png")], binary=True),
-    }, "licenses": {"LICENSES/MIT.txt": "MIT text\n", "LICENSES/0BSD.txt": "0BSD text\n"}, "roles": {"f": "src/f.py", "g": "src/g.c", "h": "h.txt", "k": "bin/k.png"}}
+        "bin/x.png": _f(None, [part("TO", ["2012 Xan"], ["0BSD"], toml=t, tpath="bin/x.png")], binary=True),
+        "k.sh": _f("#", [part("H", [C_K], ["0BSD"])]),
+    }, "licenses": {"LICENSES/MIT.txt": "MIT text\n", "LICENSES/0BSD.txt": "0BSD text\n"}, "roles": {"f": "src/f.py", "g": "src/g.c", "h": "h.txt", "k": "k.sh"}}
 
 
 def base_toml_nested():
@@ -75,7 +76,7 @@ def base_toml_nested():
 
 def base_dep5():
     return {"name": "dep5", "files": {
-        "src/f.py": _f("#", [part("D5", [C_F], ["MIT"], tpath="src/f.py")]),
+        "src/f.py": _f("#", [part("H", [C_F], ["MIT"])]),
         "src/g.c": _f("c", [part("H", [C_G], []), part("D5", ["2014 Deb"], ["0BSD"], tpath="src/g.c")]),
         "h.txt": _f(None, [part("D5", [C_H], ["MIT"], tpath="h.txt")], body="text\n"),
         "k.sh": _f("#", [part("H", [C_K], ["0BSD"]), part("D5", ["2013 Deb"], ["0BSD"], tpath="k.sh")]),
@@ -95,7 +96,22 @@ def base_compound():
         "roles": {"f": "src/f.py", "g": "src/g.c", "h": "h.py", "k": "k.sh"}}
 
 
-BASES = [base_headers, base_siblings, base_toml_override, base_toml_nested, base_dep5, base_compound]
+def base_toml_odd():
+    """Odd but valid REUSE.toml values: empty copyright string, empty lists,
+    a table without any information, several globs in one table."""
+    t = "REUSE.toml"
+    return {"name": "toml-odd", "files": {
+        "src/f.py": _f("#", [part("H", [C_F], ["MIT"])]),
+        "src/g.c": _f("c", [part("TO", [C_G], ["0BSD"], toml=t, tpath=["src/g.c", "src/nothing-here.c"])]),
+        "h.txt": _f(None, [part("TO", [C_H], ["MIT"], toml=t, tpath="h.txt")], body="text\n"),
+        "k.sh": _f("#", [part("H", [C_K], ["0BSD"])]),
+        "odd/empty-copyright.txt": _f(None, [part("TO", [""], ["MIT"], toml=t, tpath="odd/empty-copyright.txt")], body="t\n"),
+        "odd/empty-lists.txt": _f("#", [part("TA", [], [], toml=t, tpath="odd/empty-lists.txt"), part("H", ["2011 Odd"], ["0BSD"])], body=None),
+        "odd/no-info-override.txt": _f(None, [part("TO", [], [], toml=t, tpath="odd/no-info-override.txt")], body="t\n"),
+    }, "licenses": {"LICENSES/MIT.txt": "MIT text\n", "LICENSES/0BSD.txt": "0BSD text\n"}, "roles": {"f": "src/f.py", "g": "src/g.c", "h": "h.txt", "k": "k.sh"}}
+
+
+BASES = [base_headers, base_siblings, base_toml_override, base_toml_nested, base_dep5, base_compound, base_toml_odd]
 BASE_NAMES = [b()["name"] for b in BASES]
 
 # ---- defects ------------------------------------------------------------
@@ -149,7 +165,7 @@ def apply_defects(proj, defects):
                 for p in own:
                     p["broken"] = True
             else:
-                f["parts"].append(dict(part("H", ["1999 Broken"], ["MIT AND AND"]), broken=True))
+                f["parts"].append(dict(part("H", ["1999 Broken"], []), broken=True))
                 if f["style"] is None:
                     f["style"] = "#"
         elif d == "a5-empty-sibling":
@@ -212,6 +228,8 @@ def render(proj):
         head = ""
         for p in f["parts"]:
             lines = [f"SPDX-FileCopyrightText: {c}" for c in p["c"]] + [f"SPDX-License-Identifier: {e}" for e in p["l"]]
+            if p["broken"]:
+                lines.append("SPDX-License-Identifier: MIT AND AND")
             if p["mech"] == "H":
                 if lines:
                     head += _comment(f["style"], lines)
@@ -221,14 +239,18 @@ def render(proj):
                 prec = {"TO": "override", "TA": "aggregate", "TC": "closest"}[p["mech"]]
                 t = ["[[annotations]]", "path = %s" % json.dumps(p["tpath"]), f'precedence = "{prec}"']
                 if p["c"]:
-                    t.append("SPDX-FileCopyrightText = %s" % json.dumps(p["c"], ensure_ascii=False))
+                    t.append("SPDX-FileCopyrightText = %s" % json.dumps(p["c"] if len(p["c"]) != 1 else p["c"][0], ensure_ascii=False))
+                elif p["mech"] == "TA":
+                    t.append("SPDX-FileCopyrightText = []")
                 if p["l"]:
                     t.append("SPDX-License-Identifier = %s" % json.dumps(p["l"]))
+                elif p["mech"] == "TA":
+                    t.append("SPDX-License-Identifier = []")
                 tomls.setdefault(p["toml"], []).append("\n".join(t) + "\n")
             elif p["mech"] == "D5":
-                if p["c"] or p["l"]:
-                    cs = p["c"] or ["NONE"]
-                    dep5.append(f"Files: {p['tpath']}\nCopyright: " + "\n ".join(cs) + f"\nLicense: {' AND '.join(p['l']) if p['l'] else 'NONE'}\n")
+                if not (p["c"] and len(p["l"]) == 1):
+                    raise AssertionError("a dep5 paragraph needs copyright and exactly one licence expression")
+                dep5.append(f"Files: {p['tpath']}\nCopyright: " + "\n ".join(p["c"]) + f"\nLicense: {p['l'][0]}\n")
         if f["binary"]:
             recipe[path] = {"hex": PNG_HEX}
         else:
@@ -241,4 +263,31 @@ def render(proj):
                                  + "\n".join(dep5))
     for path, text in proj["licenses"].items():
         recipe[path] = text
+    return recipe
+
+
+# Non-covered clutter added to every tree: none of it may ever be reported.
+CLUTTER = {
+    "LICENSE": "some licence text without tags\n",
+    "COPYING.md": "copying\n",
+    "docs/LICENCE-extra.txt": "licence\n",
+    "empty.txt": {"empty": True},
+    "orphan.license": "SPDX-License-Identifier: Zlib\n",
+    "bom.spdx": "SPDXVersion: SPDX-2.1\n",
+    "bom.spdx.json": "{}\n",
+    "link-to-file": {"symlink": "LICENSE"},
+    "link-to-dir": {"symlink": "docs"},
+    "dangling-link": {"symlink": "does/not/exist"},
+    "docs/loop": {"symlink": "loop"},
+    "LICENSES/MIT.txt.license": "SPDX-FileCopyrightText: 2000 MIT authors\nSPDX-License-Identifier: CC0-1.0\n",
+    ".reuse/templates/t.jinja2": "{{ x }}\n",
+    ".hgtags": "tags\n",
+}
+
+
+def render_with_clutter(proj):
+    recipe = dict(CLUTTER)
+    recipe.update(render(proj))
+    if "LICENSES/MIT.txt" not in recipe:
+        recipe.pop("LICENSES/MIT.txt.license")
     return recipe
